@@ -60,6 +60,30 @@ func mutateXML(t *rapid.T, doc []byte) []byte {
 	return b
 }
 
+// mutateBin: truncation and local corruption of a binary (gob) encoding.
+func mutateBin(t *rapid.T, doc []byte) []byte {
+	b := append([]byte(nil), doc...)
+	n := rapid.IntRange(0, 3).Draw(t, "nmut")
+	for i := 0; i < n && len(b) > 0; i++ {
+		pos := rapid.IntRange(0, len(b)-1).Draw(t, "pos")
+		switch rapid.IntRange(0, 5).Draw(t, "mut") {
+		case 0:
+			b = b[:pos]
+		case 1:
+			b[pos] ^= rapid.SampledFrom([]byte{0x01, 0x80, 0xff, 0x7f, 0x10}).Draw(t, "xor")
+		case 2:
+			b[pos] = rapid.SampledFrom([]byte{0x00, 0xff, 0x01, 0x7f, 0x80}).Draw(t, "set")
+		case 3:
+			b = append(append([]byte(nil), b[:pos]...), b[pos+1:]...)
+		case 4:
+			b = append(append(append([]byte(nil), b[:pos]...), b[pos]), b[pos:]...)
+		case 5:
+			b = append(append([]byte(nil), b...), b[pos:]...)
+		}
+	}
+	return b
+}
+
 var argPieces = []string{"a", "b", "k", "list", "", ".", "..", "[", "]", "[0]", "[1]", "[-1]", "[99999999999]", "[2147483647]", "[2147483648]", "[4294967295]", "[4294967296]", "[9223372036854775806]", "[9223372036854775807]", "[9223372036854775808]", "[18446744073709551615]", "[18446744073709551616]", "[+1]", "[01]", "[1e3]", "[0x1]", "[x]", "[]", "*", ":", "::", "!", "!:", ":*", ":x", "x:", "-", "#text", " ", "a.b", "a[0", "0]", "|", ":bool", ":num", ":string", "true:bool", "1e999:num", "\x00", "é"}
 
 func genArgString(t *rapid.T, label string) string {
@@ -100,7 +124,11 @@ func genC15(t *rapid.T) CaseC15 {
 		g := VGen{Keys: xmlKeyNames, Nulls: false}
 		m := g.Map(t, 2)
 		pristine, _ = mxj.Map(m).Gob()
-		c.Input = mutateXML(t, pristine)
+		if rapid.Bool().Draw(t, "binmut") {
+			c.Input = mutateBin(t, pristine)
+		} else {
+			c.Input = mutateXML(t, pristine)
+		}
 	}
 	c.Pristine = bytes.Equal(pristine, c.Input)
 	return c
@@ -319,6 +347,8 @@ func checkC15inner(c CaseC15, info *Info) *Failure {
 		if err == nil {
 			useMap(m)
 			m.Copy()
+		} else if len(m) > 0 {
+			return failf("partial-map", "NewMapJson(%q) returned the partial Map %#v together with the error %v", b, m, err)
 		}
 		for _, raw := range []bool{false, true} {
 			r := bytes.NewReader(b)
@@ -331,9 +361,19 @@ func checkC15inner(c CaseC15, info *Info) *Failure {
 					mm, e = mxj.NewMapJsonReader(r)
 				}
 				if e != nil {
+					if len(mm) > 0 {
+						return failf("partial-map", "NewMapJsonReader (raw=%v) on %q returned the partial Map %#v together with the error %v", raw, b, mm, e)
+					}
 					break
 				}
 				useMap(mm)
+			}
+		}
+		// a document with a number that float64 cannot hold is well-formed for the scanner and fails in the decoder
+		if i := bytes.IndexByte(b, ':'); i > 0 && c.Pristine {
+			big := append(append(append([]byte(nil), b[:i+1]...), "1e999,\"zz\":"...), b[i+1:]...)
+			if bm, berr := mxj.NewMapJson(big); berr != nil && len(bm) > 0 {
+				return failf("partial-map", "NewMapJson(%q) returned the partial Map %#v together with the error %v", big, bm, berr)
 			}
 		}
 		calls := 0
@@ -345,6 +385,8 @@ func checkC15inner(c CaseC15, info *Info) *Failure {
 		m, err := mxj.NewMapGob(b)
 		if err == nil {
 			useMap(m)
+		} else if len(m) > 0 {
+			return failf("partial-map", "NewMapGob(%x) returned the partial Map %s together with the error %v", b, canon(map[string]interface{}(m)), err)
 		}
 		if c.Pristine && err != nil {
 			return failf("gob-rejected", "NewMapGob of a Gob() encoding failed: %v", err)
